@@ -47,7 +47,7 @@ Inductive errk :=
 | ESwallowReturnNil
 | EUnknown.
 
-Inductive rclass := RConn | RTLS | RUnknown.
+Inductive rclass := RConn | RTLS | RDeadline | RUnknown.  (* RDeadline: Set[Read|Write]Deadline on a connection *)
 
 (* function names are interned by the translator: [fn_names] is the table, sites
    carry indices into it (string literals are slow to load in bulk) *)
@@ -103,6 +103,9 @@ Definition raw_ok (names : list string) (inits : list ctx_init) (r : raw_site) :
   match r_class r with
   | RConn => is_prim names (r_fn r)
   | RTLS => field_init_ok inits "CEDARTLSConnection.ctx"
+  (* the library arms a socket deadline only where the caller asked for one (Stream.SetTimeout);
+     in particular the primitives - fast path included - set none of their own *)
+  | RDeadline => String.eqb (fn_name names (r_fn r)) "stream.Stream.SetTimeout"
   | RUnknown => false
   end.
 
@@ -121,6 +124,16 @@ Definition facts_ok (names : list string) (sr sw : prim_shape) (raws : list raw_
   existsb (fun r => String.eqb (fn_name names (r_fn r)) prim_read_name) raws &&
   existsb (fun r => String.eqb (fn_name names (r_fn r)) prim_write_name) raws &&
   Nat.leb 100 (List.length sites).
+
+(* call sites in the packages that CALL the handshakes (server/, client/, ccb/): the
+   context handed down is the caller's (never Background/TODO/WithoutCancel when one is
+   in scope); the accept loop's hand-over to ServeConn must be among them *)
+Definition callers_ok (names : list string) (inits : list ctx_init) (callers : list io_site) : bool :=
+  forallb (fun s => ctx_ok inits (s_ctx s)) callers &&
+  existsb (fun s => String.eqb (fn_name names (s_fn s)) "server.Server.Serve" &&
+                    String.eqb (fn_name names (s_callee s)) "server.Server.ServeConn") callers &&
+  existsb (fun s => String.eqb (fn_name names (s_fn s)) "client.ConnectAndAuthenticateWithConfig") callers &&
+  existsb (fun s => String.eqb (fn_name names (s_fn s)) "ccb.brokerReg.register") callers.
 
 Definition bad_sites (inits : list ctx_init) (sites : list io_site) : list io_site :=
   filter (fun s => negb (site_ok inits s)) sites.
